@@ -40,6 +40,9 @@ def run(c):
         rc, out = c.go_run(binary, ["-mode=conveyor", f"-n={c.n(1, 3)}"], timeout=300)
         c.harness_ok(rc, out, "verif-c01 -mode=conveyor")
         c.collect(out, label="conveyor")
+        rc, out = c.go_run(binary, ["-mode=wakeup", f"-n={c.n(1, 4)}"], timeout=600)
+        c.harness_ok(rc, out, "verif-c01 -mode=wakeup")
+        c.collect(out, label="wakeup")
 
     def search():
         if not binary:
